@@ -220,6 +220,11 @@ def _dst_pair(rng, std, delta, y0, y1, names, bounded, explicit=False):
     if explicit:
         D["rdates"] = [_rule_onset(y, ms, ns, wds, tods) for y in d_years[1:]]
         S["rdates"] = [_rule_onset(y, me, ne, wde, tode) for y in s_years[1:]]
+        if rng.random() < 0.5:
+            # RFC 5545 gives the values of an RDATE list no order
+            rng.shuffle(D["rdates"])
+            rng.shuffle(S["rdates"])
+            meta["rdates_unordered"] = True
         return [D, S], meta
     D["rrule"] = {"bymonth": ms, "byday": [ns, WEEKDAYS[wds]], "until": None, "count": None}
     S["rrule"] = {"bymonth": me, "byday": [ne, WEEKDAYS[wde]], "until": None, "count": None}
